@@ -24,6 +24,27 @@ def res(ob, name, status, queries=(), detail='', key=None, witness=None, replay_
     return r
 
 
+import os as _os
+import time as _time
+_T0 = [_time.time()]
+BUDGET = float(_os.environ.get('VERIF_GROUP_BUDGET', '0') or 0)
+
+
+def start_budget(seconds):
+    """per obligation-group wall budget: after it is used up solver timeouts drop to 2 s and witness searches are skipped
+    (the affected obligations are reported inconclusive, never held)"""
+    global BUDGET
+    _T0[0] = _time.time()
+    BUDGET = float(_os.environ.get('VERIF_GROUP_BUDGET', '0') or seconds)
+
+
+def over_budget():
+    return BUDGET > 0 and _time.time() - _T0[0] > BUDGET
+
+
+_CONFIRMED = {}     # (pid, key) -> replay path of a violation already confirmed in this process
+
+
 def _dbg(*a):
     import os, sys
     if os.environ.get('VERIF_DEBUG'):
@@ -36,6 +57,59 @@ def zabs(e):
 
 def path_conds(p):
     return list(p.assumptions) + list(p.pc) + list(p.facts)
+
+
+def model_candidates(vars_, domain, conds, seed=0, n=10):
+    """candidate inputs from solver models of the UF-free part of the conditions: plain models (diversified) and
+    vertices of the feasible region (random linear objectives), plus midpoints between vertices"""
+    rnd = random.Random(seed + 17)
+    pure = [c for c in conds if not solve._has_uf([c])]
+    names = sorted(vars_)
+    if not names:
+        return []
+    box = []
+    for k in names:
+        box += [vars_[k] >= ratval(Fraction(domain[k][0])), vars_[k] <= ratval(Fraction(domain[k][1]))]
+    s = z3.Solver()
+    s.set('timeout', 2000)
+    s.add(*box)
+    s.add(*pure)
+    out = []
+    for i in range(n):
+        if s.check() != z3.sat:
+            break
+        env = solve.model_env(s.model(), vars_)
+        out.append(env)
+        k = names[rnd.randrange(len(names))]
+        w = (Fraction(domain[k][1]) - Fraction(domain[k][0])) / 50
+        s.add(z3.Or(vars_[k] >= ratval(env[k] + w), vars_[k] <= ratval(env[k] - w)))
+    verts = []
+    for i in range(24):
+        o = z3.Optimize()
+        o.set('timeout', 1500)
+        o.add(*box)
+        o.add(*pure)
+        obj = 0
+        for k in names:
+            c = rnd.choice((-1, 0, 1, 1, -1))
+            w = Fraction(domain[k][1]) - Fraction(domain[k][0])
+            if c and w:
+                obj = obj + c * vars_[k] / ratval(w)
+        try:
+            o.maximize(obj)
+            if o.check() != z3.sat:
+                continue
+            verts.append(solve.model_env(o.model(), vars_))
+        except z3.Z3Exception:
+            break
+    mids = []
+    for i in range(len(verts)):
+        for j in range(i + 1, len(verts)):
+            if len(mids) >= 120:
+                break
+            t = Fraction(rnd.choice((1, 1, 2, 3)), 4)
+            mids.append({k: verts[i][k] * t + verts[j][k] * (1 - t) for k in names})
+    return out + verts + mids
 
 
 def sample_envs(vars_, domain, conds, n=64, seed=0, extra_points=()):
@@ -68,6 +142,12 @@ def sample_envs(vars_, domain, conds, n=64, seed=0, extra_points=()):
             if mode > 0.9 and lows[k] <= 0 <= highs[k]:
                 e[k] = Fraction(0)
         cands.append(e)
+    # candidates from solver models of the UF-free part of the conditions (reaches thin regions such as lat == 0 or
+    # |lon - cm| < 1e-8 that random points never hit); they are still checked numerically against all conditions
+    try:
+        cands = model_candidates(vars_, domain, conds, seed) + cands
+    except Exception:  # noqa
+        pass
     out = []
     for e in cands:
         try:
@@ -81,7 +161,7 @@ def sample_envs(vars_, domain, conds, n=64, seed=0, extra_points=()):
 
 
 def decide_close(ob, name, p, code, ref, tol, *, domain=None, oracle=None, make_args=None, key=None,
-                 timeout_s=30, seed=0, extra_conds=(), extra_points=(), n_samples=48, paths=1, pid=None, detail=''):
+                 timeout_s=30, seed=0, extra_conds=(), extra_points=(), n_samples=160, paths=1, pid=None, detail=''):
     """Decide |code - ref| <= tol on path p (tol 0: identity).
 
     unsat of the negation  -> proved
@@ -93,15 +173,21 @@ def decide_close(ob, name, p, code, ref, tol, *, domain=None, oracle=None, make_
     conds = path_conds(p) + list(extra_conds)
     tolz = ratval(Fraction(tol))
     goal = (cz == rz) if tol == 0 else (zabs(cz - rz) <= tolz)
-    v = solve.prove(conds, goal, timeout_s=timeout_s, seed=seed)
+    ob_over = over_budget()
+    v = solve.prove(conds, goal, timeout_s=(2 if ob_over else timeout_s), seed=seed)
     qs = [qrec('Q1' if tol == 0 else 'Q2', v)]
     _dbg(ob, name, v)
     if v.status == 'unsat':
         return res(ob, name, 'proved', qs, detail, paths=paths)
+    if (pid, key or ob) in _CONFIRMED:
+        return res(ob, name, 'inconclusive', qs, 'solver=%s; not examined further: a violation with the same key is already '
+                   'confirmed (%s)' % (v.status, _CONFIRMED[(pid, key or ob)]), paths=paths)
+    if ob_over:
+        return res(ob, name, 'inconclusive', qs, 'solver=%s; group time budget exhausted, witness search skipped' % v.status, paths=paths)
     # witness search
     wit = None
     if domain is not None and oracle is not None:
-        vars_ = solve.free_vars([cz, rz] + list(p.assumptions) + list(p.pc) + list(extra_conds))
+        vars_ = solve.free_vars([cz, rz] + list(p.assumptions) + list(p.pc))
         dom = {k: domain[k] for k in vars_ if k in domain}
         missing = [k for k in vars_ if k not in domain]
         if not missing:
@@ -111,7 +197,8 @@ def decide_close(ob, name, p, code, ref, tol, *, domain=None, oracle=None, make_
                     pts.insert(0, solve.model_env(v.model, vars_))
                 except Exception:  # noqa
                     pass
-            envs = sample_envs(vars_, dom, list(p.assumptions) + list(p.pc) + list(extra_conds), n=n_samples,
+            # (axiom instances in extra_conds are not numeric filters: sin^2+cos^2 == 1 is not exact in floating evaluation)
+            envs = sample_envs(vars_, dom, list(p.assumptions) + list(p.pc), n=n_samples,
                                seed=seed, extra_points=pts)
             scored = []
             for e in envs:
@@ -130,6 +217,7 @@ def decide_close(ob, name, p, code, ref, tol, *, domain=None, oracle=None, make_
                 args = make_args(e) if make_args else e
                 viol, msg, path = replay.confirm(pid, ob, key or ob, oracle, args)
                 if viol is True:
+                    _CONFIRMED[(pid, key or ob)] = path
                     return res(ob, name, 'violated', qs, 'model residual %.3e; %s' % (float(d), msg), key=key or ob,
                                witness=args, replay_path=path, paths=paths)
                 wit = (float(d), msg)
@@ -143,12 +231,18 @@ def decide_goal(ob, name, conds, goal, *, timeout_s=30, seed=0, oracle=None, arg
     """Generic: prove goal under conds. A sat model is turned into replay args by args_from_model(env); when the solver
     gives no usable model and `domain`/`num_conds` are given, numeric witness candidates (points of the stated box that
     satisfy num_conds and falsify the goal under the true functions) are replayed instead."""
-    v = solve.prove(conds, goal, timeout_s=timeout_s, seed=seed)
+    ob_over = over_budget()
+    v = solve.prove(conds, goal, timeout_s=(2 if ob_over else timeout_s), seed=seed)
     qs = [qrec('valid', v)]
     _dbg(ob, name, v)
+    if ob_over and v.status != 'unsat':
+        return res(ob, name, 'inconclusive', qs, 'solver=%s; group time budget exhausted, witness search skipped' % v.status, paths=paths)
     if v.status == 'unsat':
         return res(ob, name, 'proved', qs, detail, paths=paths)
     tried = None
+    if (pid, key or ob) in _CONFIRMED:
+        return res(ob, name, 'inconclusive', qs, 'solver=%s; not examined further: a violation with the same key is already '
+                   'confirmed (%s)' % (v.status, _CONFIRMED[(pid, key or ob)]), paths=paths)
     if oracle is not None and args_from_model is not None:
         envs = []
         if v.status == 'sat' and v.model is not None:
@@ -165,6 +259,7 @@ def decide_goal(ob, name, conds, goal, *, timeout_s=30, seed=0, oracle=None, arg
                 continue
             viol, msg, path = replay.confirm(pid, ob, key or ob, oracle, args)
             if viol is True:
+                _CONFIRMED[(pid, key or ob)] = path
                 return res(ob, name, 'violated', qs, msg, key=key or ob, witness=args, replay_path=path, paths=paths)
             tried = msg
     return res(ob, name, 'inconclusive', qs, '%s solver=%s%s' % (detail, v.status, ('; witness did not reproduce: %s' % tried) if tried else ''),
